@@ -56,11 +56,83 @@ Proof.
   rewrite (rw_list_ext _ _ _ H3), IH. destruct first; [rewrite H1 | rewrite H2]; reflexivity.
 Qed.
 
+(* ---------- lambdas with default values / other parameter kinds: the visitors against [lam_parts] ---------- *)
+
+Lemma lam_parts_inv cls cs acls aatoms akids b lv :
+  lam_parts cls cs = Some (acls, aatoms, akids, b, lv) ->
+  String.prefix "Lambda;" cls = true /\ cs = [Other acls aatoms akids; b] /\ lam_view acls akids = Some lv.
+Proof.
+  unfold lam_parts. destruct (String.prefix "Lambda;" cls); [|discriminate].
+  destruct cs as [|a0 [|b0 [|c0 cs]]]; try discriminate;
+    (destruct a0 as [| | | | | | | | | | | | | | | | | |acls0 aatoms0 akids0]; try discriminate).
+  destruct (lam_view acls0 akids0) eqn:Hv; [|discriminate]. intros H; inversion H; subst. auto.
+Qed.
+
+Lemma lam_bound_parts cls cs :
+  lam_bound cls cs = match lam_parts cls cs with Some (_, _, _, _, lv) => lv_params lv | None => [] end.
+Proof.
+  unfold lam_bound, lam_parts. destruct (String.prefix "Lambda;" cls); [|reflexivity].
+  destruct cs as [|a0 [|b0 [|c0 cs]]]; try reflexivity;
+    (destruct a0 as [| | | | | | | | | | | | | | | | | |acls0 aatoms0 akids0]; try reflexivity).
+  destruct (lam_view acls0 akids0); reflexivity.
+Qed.
+
+(* a class string that starts with "Lambda;" starts neither with "SetComp;" nor with "DictComp;" *)
+Lemma prefix_lambda_excl cls :
+  String.prefix "Lambda;" cls = true -> String.prefix "SetComp;" cls = false /\ String.prefix "DictComp;" cls = false.
+Proof.
+  destruct cls as [|c cls]; [discriminate|]. intros H.
+  assert (Hc : c = Ascii.Ascii false false true true false false true false).
+  { cbn [String.prefix] in H. destruct (Ascii.ascii_dec _ c) as [<-|]; [reflexivity | discriminate]. }
+  subst c. split; reflexivity.
+Qed.
+
+Lemma rw_other_shape ce st cls atoms cs :
+  String.prefix "SetComp;" cls = false -> String.prefix "DictComp;" cls = false ->
+  rw ce st (Other cls atoms cs) =
+  match lam_parts cls cs with
+  | Some (acls, aatoms, akids, b, lv) =>
+      same (sbind (rw_list (fun k => if is_argnode k then Ok (k, k) else rw ce st k) akids) (fun akids' =>
+            sbind (rw ce (lv_params lv :: st) b) (fun pb => Ok (Other cls atoms [Other acls aatoms akids'; fst pb]))))
+  | None => same (sbind (rw_list (rw ce st) cs) (fun cs' => Ok (Other cls atoms cs')))
+  end.
+Proof.
+  intros E1 E2. cbn [rw]. rewrite E1, E2. unfold lam_parts.
+  destruct (String.prefix "Lambda;" cls); [|reflexivity].
+  destruct cs as [|a0 [|b0 [|c0 cs]]]; try reflexivity;
+    (destruct a0 as [| | | | | | | | | | | | | | | | | |acls0 aatoms0 akids0]; try reflexivity).
+  destruct (lam_view acls0 akids0); reflexivity.
+Qed.
+
+Lemma res_other_shape st cls atoms cs :
+  String.prefix "SetComp;" cls = false -> String.prefix "DictComp;" cls = false ->
+  res st (Other cls atoms cs) =
+  match lam_parts cls cs with
+  | Some (acls, aatoms, akids, b, lv) =>
+      Other cls atoms [Other acls aatoms (map (on_defaults (res st)) akids); res (shadow (lv_params lv) :: st) b]
+  | None => Other cls atoms (map (res st) cs)
+  end.
+Proof.
+  intros E1 E2. cbn [res]. rewrite E1, E2. unfold lam_parts.
+  destruct (String.prefix "Lambda;" cls); [|reflexivity].
+  destruct cs as [|a0 [|b0 [|c0 cs]]]; try reflexivity;
+    (destruct a0 as [| | | | | | | | | | | | | | | | | |acls0 aatoms0 akids0]; try reflexivity).
+  destruct (lam_view acls0 akids0); reflexivity.
+Qed.
+
+Lemma inner_binders_other cls atoms cs :
+  inner_binders (Other cls atoms cs) = lam_bound cls cs ++ flat_map inner_binders cs.
+Proof. reflexivity. Qed.
+
 Definition scope_P (e : expr) : Prop :=
   forall st ce1 ce2, agree_off st ce1 ce2 -> rw ce1 st e = rw ce2 st e.
 
 Definition scope_Q (e : expr) : Prop :=
-  scope_P e /\ match e with CompFor _ it ifs _ => scope_P it /\ Forall scope_P ifs | _ => True end.
+  scope_P e /\ match e with
+               | CompFor _ it ifs _ => scope_P it /\ Forall scope_P ifs
+               | Other _ _ cs => Forall scope_P cs         (* the children of an ast.arguments node: default values *)
+               | _ => True
+               end.
 
 Lemma scope_Q_P l : Forall scope_Q l -> Forall scope_P l.
 Proof. apply Forall_impl. intros a [H _]; exact H. Qed.
@@ -130,7 +202,21 @@ Proof.
       pose proof (agree_off_cons (comp_targets (g :: gs)) _ _ _ Hag) as Hag'.
       rewrite (scope_gens (g :: gs) st _ ce1 ce2 true Hgs Hag Hag'), (proj1 Hk _ ce1 ce2 Hag'), (proj1 Hv _ ce1 ce2 Hag').
       reflexivity. }
-    rewrite (scope_list cs st ce1 ce2 (scope_Q_P _ H) Hag). reflexivity.
+    (* a lambda with default values / other parameter kinds (FC7, FC8), or any other node class *)
+    destruct (String.prefix "Lambda;" cls);
+      [|rewrite (scope_list _ st ce1 ce2 (scope_Q_P _ H) Hag); reflexivity].
+    destruct cs as [|a0 [|b [|c0 cs]]]; try (rewrite (scope_list _ st ce1 ce2 (scope_Q_P _ H) Hag); reflexivity);
+      (destruct a0 as [| | | | | | | | | | | | | | | | | |acls aatoms akids];
+       try (rewrite (scope_list _ st ce1 ce2 (scope_Q_P _ H) Hag); reflexivity)).
+    destruct (lam_view acls akids) as [lv|]; [|rewrite (scope_list _ st ce1 ce2 (scope_Q_P _ H) Hag); reflexivity].
+    inversion H as [|? ? Ha0 Hr]; subst. inversion Hr as [|? ? Hb0 _]; subst.
+    destruct Ha0 as [_ Hkids].
+    rewrite (proj1 Hb0 (lv_params lv :: st) ce1 ce2 (agree_off_cons _ _ _ _ Hag)).
+    rewrite (rw_list_ext (fun k => if is_argnode k then Ok (k, k) else rw ce1 st k)
+                         (fun k => if is_argnode k then Ok (k, k) else rw ce2 st k) akids); [reflexivity|].
+    eapply Forall_impl; [|exact Hkids]. intros a Ha. cbv beta. destruct (is_argnode a); [reflexivity | apply Ha; exact Hag].
+  - (* Other, hereditary part *)
+    exact (scope_Q_P _ H).
 Qed.
 
 (* The values the snapshot holds for names on the ignore stack are irrelevant: whatever was captured under the
@@ -221,3 +307,156 @@ Proof.
       inversion H; subst. simpl. f_equal. apply IH. reflexivity. }
   rewrite !map_length. split; eapply Hlen; eauto.
 Qed.
+
+(* ---------- F30: a called lambda with a starred argument stays a call ---------- *)
+
+Lemma prefix_starred_excl cls :
+  String.prefix "Starred;" cls = true ->
+  String.prefix "SetComp;" cls = false /\ String.prefix "DictComp;" cls = false /\ String.prefix "Lambda;" cls = false.
+Proof.
+  destruct cls as [|c [|d cls]]; [discriminate | |]; intros H.
+  { cbn [String.prefix] in H. destruct (Ascii.ascii_dec _ c); discriminate. }
+  assert (Hc : c = Ascii.Ascii true true false false true false true false /\
+               d = Ascii.Ascii false false true false true true true false).
+  { cbn [String.prefix] in H. destruct (Ascii.ascii_dec _ c) as [<-|]; [|discriminate].
+    destruct (Ascii.ascii_dec _ d) as [<-|]; [split; reflexivity | discriminate]. }
+  destruct Hc; subst c d. repeat split; reflexivity.
+Qed.
+
+(* the starred argument itself is treated by generic_visit: it stays starred, its operand is resolved *)
+Lemma res_starred_node st cls atoms cs :
+  String.prefix "Starred;" cls = true -> res st (Other cls atoms cs) = Other cls atoms (map (res st) cs).
+Proof.
+  intros H. destruct (prefix_starred_excl _ H) as (E1 & E2 & E3).
+  rewrite (res_other_shape st cls atoms cs E1 E2). unfold lam_parts. rewrite E3. reflexivity.
+Qed.
+
+Lemma res_keeps_starred st a : is_starred a = true -> is_starred (res st a) = true.
+Proof. destruct a; try discriminate. cbn [is_starred]. intros H. rewrite (res_starred_node st cls atoms cs H). exact H. Qed.
+
+Lemma res_keeps_starred_args st args : existsb is_starred args = true -> existsb is_starred (map (res st) args) = true.
+Proof.
+  induction args as [|a args IH]; simpl; [discriminate|]. intros H. apply orb_true_iff in H. apply orb_true_iff.
+  destruct H as [H|H]; [left; apply res_keeps_starred; exact H | right; apply IH; exact H].
+Qed.
+
+(* _plainly_called refuses a starred argument: the call is left, its parts resolved (generic_visit) - whatever the
+   number of arguments, keywords or the parameters' names *)
+Theorem res_starred_call_stays st ps b args kwn kwv :
+  existsb is_starred args = true ->
+  res st (Call (Lambda ps b) args kwn kwv) =
+  Call (Lambda ps (res (shadow ps :: st) b)) (map (res st) args) kwn (map (res st) kwv) /\
+  existsb is_starred (map (res st) args) = true.
+Proof.
+  intros H. split; [|apply res_keeps_starred_args; exact H].
+  cbn [res]. destruct kwn; [|reflexivity]. destruct (Nat.eqb (length ps) (length args)); [rewrite H|]; reflexivity.
+Qed.
+
+(* the same for a called lambda that has default values / other parameter kinds *)
+Theorem res_starred_call_stays_defaults st cls atoms cs args kwn kwv :
+  existsb is_starred args = true ->
+  res st (Call (Other cls atoms cs) args kwn kwv) =
+  Call (res st (Other cls atoms cs)) (map (res st) args) kwn (map (res st) kwv).
+Proof.
+  intros H. cbn [res]. destruct (String.prefix "Lambda;" cls); [|reflexivity].
+  destruct cs as [|a0 [|b0 [|c0 cs]]]; try reflexivity;
+    (destruct a0 as [| | | | | | | | | | | | | | | | | |acls0 aatoms0 akids0]; try reflexivity).
+  destruct (lam_view acls0 akids0); [|reflexivity]. destruct kwn; [|reflexivity].
+  rewrite H. cbn [negb]. rewrite !andb_false_r. reflexivity.
+Qed.
+
+(* [inner_binders] agrees: such a call is not "certainly inlined", its parameters count as binders that stay *)
+Lemma inner_binders_starred_call ps b args kwv :
+  existsb is_starred args = true ->
+  incl ps (inner_binders (Call (Lambda ps b) args [] kwv)).
+Proof.
+  intros H z Hz. cbn [inner_binders]. rewrite H. cbn [negb]. rewrite andb_false_r.
+  destruct (inner_binders b); apply in_or_app; left; exact Hz.
+Qed.
+
+(* what the pass did before 6fb93bf (F30) for a call whose argument count matched: substitute *)
+Definition res_inlined (st : list amap) (ps : list string) (b : expr) (args : list expr) : expr :=
+  res (combine ps (map (@Some expr) (map (res st) args)) :: st) b.
+
+(* without a starred argument (and without keywords, matching count, no clash) that is still what happens *)
+Lemma res_plain_call_inlined st ps b args kwv :
+  length ps = length args -> existsb is_starred args = false ->
+  overlaps (flat_map names_in (map (res st) args)) (inner_binders b) = false ->
+  res st (Call (Lambda ps b) args [] kwv) = res_inlined st ps b args.
+Proof. intros Hl Hs Ho. cbn [res]. rewrite Hl, Nat.eqb_refl, Hs, Ho. reflexivity. Qed.
+
+(* ---------- F31 / FC8: default values of a lambda that stays belong to the enclosing scope ---------- *)
+
+Lemma on_defaults_arg f k : is_argnode k = true -> on_defaults f k = k.
+Proof. unfold on_defaults. intros ->. reflexivity. Qed.
+
+Lemma on_defaults_default f k : is_argnode k = false -> on_defaults f k = f k.
+Proof. unfold on_defaults. intros ->. reflexivity. Qed.
+
+(* _resolve_called_lambdas.visit_Lambda (F31): in the result the ast.arg nodes are untouched, every default value [d]
+   is [res st d] - resolved with the argument maps [st] of the ENCLOSING scope, not hidden by the lambda's own
+   parameters - and the body is resolved under every bound name *)
+Theorem res_lambda_defaults_outer st cls atoms cs acls aatoms akids b lv :
+  lam_parts cls cs = Some (acls, aatoms, akids, b, lv) ->
+  res st (Other cls atoms cs) =
+  Other cls atoms [Other acls aatoms (map (on_defaults (res st)) akids); res (shadow (lv_params lv) :: st) b].
+Proof.
+  intros H. destruct (lam_parts_inv _ _ _ _ _ _ _ H) as (Hp & _ & _). destruct (prefix_lambda_excl _ Hp) as [E1 E2].
+  rewrite (res_other_shape st cls atoms cs E1 E2), H. reflexivity.
+Qed.
+
+(* in particular a parameter of an inlined helper that a default value mentions is replaced by the argument, even when
+   the lambda binds a parameter of that very name (`lambda j, k=k: j + k`) *)
+Corollary res_default_sees_argument st cls atoms cs acls aatoms akids b lv x a :
+  lam_parts cls cs = Some (acls, aatoms, akids, b, lv) -> In (Name x) akids -> lookup_st x st = Some (Some a) ->
+  exists akids' b', res st (Other cls atoms cs) = Other cls atoms [Other acls aatoms akids'; b'] /\ In a akids'.
+Proof.
+  intros H Hin Hl. rewrite (res_lambda_defaults_outer _ _ _ _ _ _ _ _ _ H). eexists; eexists; split; [reflexivity|].
+  apply in_map_iff. exists (Name x). split; [|exact Hin]. unfold on_defaults. cbn [is_argnode res]. rewrite Hl. reflexivity.
+Qed.
+
+(* _rewrite_captured_vars.visit_Lambda (FC7, FC8): the same shape - defaults rewritten with the ignore stack of the
+   enclosing scope, the body with every bound name pushed *)
+Theorem rw_lambda_defaults_outer ce st cls atoms cs acls aatoms akids b lv :
+  lam_parts cls cs = Some (acls, aatoms, akids, b, lv) ->
+  rw ce st (Other cls atoms cs) =
+  same (sbind (rw_list (fun k => if is_argnode k then Ok (k, k) else rw ce st k) akids) (fun akids' =>
+        sbind (rw ce (lv_params lv :: st) b) (fun pb => Ok (Other cls atoms [Other acls aatoms akids'; fst pb])))).
+Proof.
+  intros H. destruct (lam_parts_inv _ _ _ _ _ _ _ H) as (Hp & _ & _). destruct (prefix_lambda_excl _ Hp) as [E1 E2].
+  rewrite (rw_other_shape ce st cls atoms cs E1 E2), H. reflexivity.
+Qed.
+
+(* what visit_Lambda did before a7148b7 (F31): the parameters pushed first, then generic_visit - default values under
+   the lambda's own parameters *)
+Definition res_lambda_pinned (st : list amap) (cls : string) (atoms : list const) (acls : string) (aatoms : list const)
+           (akids : list expr) (b : expr) (lv : lamv) : expr :=
+  let st' := shadow (lv_params lv) :: st in
+  Other cls atoms [Other acls aatoms (map (on_defaults (res st')) akids); res st' b].
+
+(* ---------- F32: every parameter of a lambda that stays is an inner binder ---------- *)
+
+Theorem inner_binders_all_params cls atoms cs acls aatoms akids b lv :
+  lam_parts cls cs = Some (acls, aatoms, akids, b, lv) ->
+  incl (lv_params lv) (inner_binders (Other cls atoms cs)).
+Proof.
+  intros H z Hz. rewrite inner_binders_other, lam_bound_parts, H. apply in_or_app; left; exact Hz.
+Qed.
+
+(* so a call whose (resolved) argument mentions such a name is left as a call *)
+Theorem res_call_stays_on_any_binder st ps cls atoms cs acls aatoms akids b lv args z :
+  lam_parts cls cs = Some (acls, aatoms, akids, b, lv) -> length ps = length args -> existsb is_starred args = false ->
+  In z (lv_params lv) -> In z (flat_map names_in (map (res st) args)) ->
+  res st (Call (Lambda ps (Other cls atoms cs)) args [] []) =
+  Call (Lambda ps (res (shadow ps :: st) (Other cls atoms cs))) (map (res st) args) [] [].
+Proof.
+  intros H Hl Hs Hz Hu.
+  assert (Ho : overlaps (flat_map names_in (map (res st) args)) (inner_binders (Other cls atoms cs)) = true).
+  { unfold overlaps. apply existsb_exists. exists z. split; [exact Hu|]. apply existsb_exists. exists z.
+    split; [eapply inner_binders_all_params; eauto | apply String.eqb_refl]. }
+  cbn [res]. rewrite Hl, Nat.eqb_refl, Hs, Ho. reflexivity.
+Qed.
+
+(* the binder set before cb95368 (F32): the plain positional parameters only *)
+Definition lam_bound_pinned (cls : string) (cs : list expr) : list string :=
+  match lam_parts cls cs with Some (_, _, _, _, lv) => lv_args lv | None => [] end.
